@@ -7,7 +7,7 @@
    is a correspondence-level check, not yet a theorem for all circuits. *)
 From Coq Require Import ZArith QArith Bool List.
 From PV Require Import Base.Num Base.Outcome Circuit.ElemState Circuit.Tree Circuit.Token Circuit.Parser Circuit.Parser_facts.
-From PV Require Import Circuit.Registry Circuit.Printer Circuit.Token_decode Circuit.Printer_lex Circuit.Parser_basic gen.Classes_gen.
+From PV Require Import Circuit.Registry Circuit.Printer Circuit.Token_decode Circuit.Printer_lex Circuit.Parser_basic Circuit.Parser_mono gen.Classes_gen.
 Import ListNotations.
 
 (* A container's sub-circuit — in either written form — and a whole parameter block consume only what follows
@@ -62,12 +62,13 @@ Proof. exact basic_round_trip_b. Qed.
 Print Assumptions C03_basic_round_trip.
 
 (* ... and the same statement about [parse], the model of parse_cdc itself (stripping, the empty-circuit shortcut, the scanner and
-   the parser in sequence): parsing the printed text returns exactly the specified tree. *)
+   the parser in sequence), for ANY printing fuel that suffices (pf + k: more fuel changes neither the text nor the result):
+   parsing the printed text returns exactly the specified tree. *)
 Theorem C03_basic_round_trip_parse :
   forall reg, syms_valid reg = true -> syms_unique reg = true ->
   forall pf c n', pconn reg pf c = Some n' -> (2 * pf <= depth_budget)%nat ->
-  parse reg (to_string reg None c pf) = Ok (top n').
-Proof. exact basic_parse. Qed.
+  forall k, parse reg (to_string reg None c (pf + k)) = Ok (top n').
+Proof. exact basic_parse_any_fuel. Qed.
 Print Assumptions C03_basic_round_trip_parse.
 
 (* non-vacuity: the live registry meets the hypotheses, and a nested tree over it (series in parallel in series, a nested
